@@ -48,6 +48,7 @@ type fWorld struct {
 	hostNames []string // names occurring in hosts-style lines
 	domains   []string // pool domains mentioned anywhere in the lists
 	docSites  []string // hosts covered by a document-level exception with cosmetic modifiers
+	must      []string // hostnames every query pool asks about (the names of the hosts clusters)
 }
 
 var fHostIPs = []string{"0.0.0.0", "127.0.0.1", "::", "::1", "10.1.2.3", "2001:db8::5"}
@@ -147,6 +148,36 @@ func fGenWorld(r *rng, maxLines int, fileMode int) *fWorld {
 			}
 			w.domains = append(w.domains, h, h, h)
 			w.hostNames = append(w.hostNames, h)
+		}
+		if r.chance(1, 2) {
+			// a hosts cluster: two or three multi-name lines that share ONE name, so that the bucket of the shared
+			// name holds several indexes of which a history may have materialised only the later ones (the nil
+			// check of matchLookupTable must SKIP an unreadable candidate, not stop at it); likewise for the
+			// network tables: two rules indexed under the same shortcut window
+			sh := "shared" + fmt.Sprint(li) + ".example.net"
+			own := []string{"left" + fmt.Sprint(li) + ".example.net", "right" + fmt.Sprint(li) + ".example.net", "mid" + fmt.Sprint(li) + ".example.net"}
+			k := 2 + r.n(2)
+			for j := 0; j < k; j++ {
+				names := []string{own[j], sh}
+				if r.chance(1, 2) {
+					names = []string{sh, own[j]}
+				}
+				if sb.Len() > 0 && !strings.HasSuffix(sb.String(), "\n") {
+					sb.WriteString("\n")
+				}
+				sb.WriteString(pick(r, fHostIPs) + " " + strings.Join(names, " ") + "\n")
+				w.hostNames = append(w.hostNames, own[j], own[j])
+			}
+			w.hostNames = append(w.hostNames, sh, sh)
+			w.must = append(w.must, own[k-1], sh)
+			if r.chance(1, 2) {
+				for j := 0; j < 2; j++ {
+					line := "||" + sh + "/path" + fmt.Sprint(j) + pick(r, []string{"", "^", "$important"})
+					sb.WriteString(line + "\n")
+					w.ruleTexts = append(w.ruleTexts, line)
+				}
+				w.domains = append(w.domains, sh)
+			}
 		}
 		if r.chance(1, 4) {
 			// a rule the parser accepts but regexp.Compile rejects (look-ahead): Match marks it invalid on first use
@@ -449,6 +480,10 @@ func (q *fQuery) String() string {
 // repeats): DNS queries come in families that share the hostname and differ in
 // the client fields.
 func fGenQueryPool(r *rng, w *fWorld, n int) (qs []*fQuery) {
+	for _, h := range w.must {
+		qs = append(qs, &fQuery{kind: "dns", dns: &urlfilter.DNSRequest{Hostname: h}})
+	}
+	n += len(qs)
 	for len(qs) < n {
 		switch k := r.n(10); {
 		case k < 5:
